@@ -88,7 +88,7 @@ iovec_aggregate_ex(iovec_p iov, size_t iov_cnt, size_t data_size, size_t off,
 	    (iov[0].iov_len - off) >= data_size ||
 	    (1 == iov_cnt && 0 == (iov[0].iov_len - off))) {
 		if (NULL != reminder_data_size_ret) {
-			(*reminder_data_size_ret) = 0;
+			(*reminder_data_size_ret) = data_size;
 		}
 		return (0);
 	}
